@@ -158,25 +158,27 @@ let sb = string_of_bytes
 
 let score_str (s : Num.score) : string = sb (Num.format_score s)
 
+let tok_val s = if String.length s > 8192 then tok_out s else tok_bytes s
+
 let value_tokens (v : Db.value) : string =
   match v with
-  | Db.VStr s -> Printf.sprintf "s %d %s" (if s.DsStr.snil then 1 else 0) (tok_out (sb s.DsStr.sv))
+  | Db.VStr s -> Printf.sprintf "s %d %s" (if s.DsStr.snil then 1 else 0) (tok_val (sb s.DsStr.sv))
   | Db.VList l ->
       let el = l.DsList.lx in
       String.concat " " (Printf.sprintf "l %d %d ok" (int_of_coqz l.DsList.ll) (List.length el)
-                         :: List.map (fun e -> tok_out (sb e)) el)
+                         :: List.map (fun e -> tok_val (sb e)) el)
   | Db.VHash h ->
       String.concat " " (Printf.sprintf "h %d" (List.length h)
-                         :: List.concat_map (fun (k, v) -> [tok_out (sb k); tok_out (sb v)]) h)
+                         :: List.concat_map (fun (k, v) -> [tok_val (sb k); tok_val (sb v)]) h)
   | Db.VSet s ->
-      String.concat " " (Printf.sprintf "S %d" (List.length s) :: List.map (fun (m, _) -> tok_out (sb m)) s)
+      String.concat " " (Printf.sprintf "S %d" (List.length s) :: List.map (fun (m, _) -> tok_val (sb m)) s)
   | Db.VZSet z ->
       let d = z.DsZSet.zd and l = z.DsZSet.zl in
       String.concat " "
         ((Printf.sprintf "z ok %d" (List.length d)
-          :: List.concat_map (fun (m, s) -> [tok_out (sb m); score_str s]) d)
+          :: List.concat_map (fun (m, s) -> [tok_val (sb m); score_str s]) d)
          @ (string_of_int (List.length l)
-            :: List.concat_map (fun (s, m) -> [tok_out (sb m); score_str s]) l))
+            :: List.concat_map (fun (s, m) -> [tok_val (sb m); score_str s]) l))
 
 let rec nm_get k m = match m with [] -> None | (k', v) :: r -> if k = k' then Some v else nm_get k r
 
@@ -381,8 +383,271 @@ let trace_main file =
   done;
   Printf.printf "SUMMARY cases=%d steps=%d unm=%d diffs=%d\n" st.cases st.steps st.unm st.diffs
 
+
+(* ======================= judge mode (implementation vs specification) ============== *)
+(* Per step: abstract the implementation's dump before the command, run the specification,
+   compare the reply and the abstraction of the dump after the command. *)
+type jval = JKnown of Redis.sval | JUnknown
+
+let digests : (string, string) Hashtbl.t = Hashtbl.create 64
+let register_bytes (s : string) =
+  if String.length s > 256 then Hashtbl.replace digests (tok_out s) s
+
+(* a dump/arg token back to bytes; None for an unregistered digest *)
+let untok (t : string) : string option =
+  if t = "-" then Some ""
+  else if t.[0] = '#' then Hashtbl.find_opt digests t
+  else if t.[0] = 'P' then Some (parse_tok t)
+  else Some (unhex t)
+
+let parse_score_tok (t : string) : Num.score option =
+  match t with
+  | "+Inf" -> Some Num.SPosInf
+  | "-Inf" -> Some Num.SNegInf
+  | _ -> (try Some (Num.SFin (coqz_of_z (Z.of_string t))) with _ -> None)
+
+let rec all_some l = match l with
+  | [] -> Some []
+  | None :: _ -> None
+  | Some x :: r -> (match all_some r with Some r' -> Some (x :: r') | None -> None)
+
+(* value tokens of a K line (after the 6 header fields) *)
+let parse_value (toks : string list) : jval option =
+  (* None = cold *)
+  match toks with
+  | ["cold"] -> None
+  | "s" :: _ :: v :: _ -> Some (match untok v with Some b -> JKnown (Redis.SvStr (bs b)) | None -> JUnknown)
+  | "l" :: _ :: _ :: _ :: els ->
+      Some (match all_some (List.map untok els) with
+            | Some l -> JKnown (Redis.SvList (List.map bs l)) | None -> JUnknown)
+  | "h" :: _ :: kvs ->
+      Some (match all_some (List.map untok kvs) with
+            | Some l -> let rec pr l = match l with a :: b :: r -> (bs a, bs b) :: pr r | _ -> [] in
+                        JKnown (Redis.SvHash (pr l))
+            | None -> JUnknown)
+  | "S" :: _ :: ms ->
+      Some (match all_some (List.map untok ms) with
+            | Some l -> JKnown (Redis.SvSet (List.map (fun m -> (bs m, ())) l)) | None -> JUnknown)
+  | "z" :: _ :: nd :: rest ->
+      let nd = int_of_string nd in
+      let dict = take (2 * nd) rest in
+      let rec pr l = match l with
+        | m :: sc :: r -> (match untok m, parse_score_tok sc, pr r with
+                           | Some m', Some s', Some r' -> Some ((bs m', s') :: r')
+                           | _ -> None)
+        | _ -> Some [] in
+      Some (match pr dict with Some d -> JKnown (Redis.SvZSet d) | None -> JUnknown)
+  | _ -> Some JUnknown
+
+type jkey = { jname : string; jexp : Z.t; jval : jval option (* None = cold *); jraw : string list }
+
+let parse_dump (dump : string list) : jkey list =
+  List.filter_map (fun l ->
+    match split_ws l with
+    | "K" :: name :: exp :: _hot :: _mod :: _cnt :: _vt :: vt ->
+        Some { jname = parse_tok name; jexp = Z.of_string exp; jval = parse_value vt; jraw = vt }
+    | _ -> None) dump
+
+(* nested reply from flat tokens *)
+type nrep = NI of Z.t | NB of string | NBdig of string | NN | NA of nrep list | NE | NS of string | NBad
+let parse_nested (toks : string list) : nrep option =
+  let rec one l = match l with
+    | [] -> None
+    | t :: r ->
+        (match t.[0] with
+         | 'I' -> Some (NI (Z.of_string (String.sub t 1 (String.length t - 1))), r)
+         | 'B' -> let b = String.sub t 1 (String.length t - 1) in
+                  (match untok b with Some s -> Some (NB s, r) | None -> Some (NBdig b, r))
+         | 'N' -> Some (NN, r)
+         | 'n' -> Some (NN, r)
+         | 'E' -> Some (NE, r)
+         | 'S' -> Some (NS (parse_tok (String.sub t 1 (String.length t - 1))), r)
+         | 'A' -> let n = int_of_string (String.sub t 1 (String.length t - 1)) in
+                  let rec many k l acc = if k = 0 then Some (List.rev acc, l)
+                    else (match one l with Some (v, l') -> many (k - 1) l' (v :: acc) | None -> None) in
+                  (match many n r [] with Some (vs, l') -> Some (NA vs, l') | None -> None)
+         | _ -> None) in
+  match one toks with Some (v, []) -> Some v | _ -> None
+
+let null_is_failure = ["INCR"; "DECR"; "INCRBY"; "DECRBY"; "INCRBYFLOAT"; "LLEN"]
+
+let rec rep_match (name : string) (s : Redis.sreply) (r : nrep) : bool =
+  match s, r with
+  | Redis.SAny, _ -> true
+  | Redis.SScan _, _ -> true
+  | Redis.SInt z, NI i -> Z.equal (z_of_coqz z) i
+  | Redis.SIntIn (lo, hi), NI i -> Z.leq (z_of_coqz lo) i && Z.leq i (z_of_coqz hi)
+  | Redis.SBulk b, NB x -> sb b = x
+  | Redis.SBulk b, NBdig d -> tok_out (sb b) = d
+  | Redis.SNull, NN -> true
+  | Redis.SErr, NE -> true
+  | Redis.SErr, NN -> List.mem name null_is_failure
+  | Redis.SOk, NS "OK" -> true
+  | Redis.SStatus x, NS y -> sb x = y
+  | Redis.SArr l, NA rs -> List.length l = List.length rs && List.for_all2 (rep_match name) l rs
+  (* a pop with an explicit count of one element may answer the bare bulk *)
+  | Redis.SArr [x], (NB _ | NBdig _) when List.mem name ["LPOP"; "RPOP"; "SPOP"] -> rep_match name x r
+  | Redis.SBag l, NA rs ->
+      List.length l = List.length rs &&
+      (let canon_s = List.sort compare (List.map (function Redis.SBulk b -> tok_out (sb b) | _ -> "?") l) in
+       let canon_r = List.sort compare (List.map (function NB x -> tok_out x | NBdig d -> d | _ -> "!") rs) in
+       canon_s = canon_r)
+  | Redis.SBag [x], (NB _ | NBdig _) when name = "SPOP" -> rep_match name x r
+  | Redis.SPairs l, NA rs ->
+      let rec pr l = match l with a :: b :: r -> (a, b) :: pr r | _ -> [] in
+      let key = function NB x -> tok_out x | NBdig d -> d | _ -> "!" in
+      List.length rs = 2 * List.length l &&
+      (let cs = List.sort compare (List.map (function (Redis.SBulk a, Redis.SBulk b) -> (tok_out (sb a), tok_out (sb b)) | _ -> ("?", "?")) l) in
+       let cr = List.sort compare (List.map (fun (a, b) -> (key a, key b)) (pr rs)) in cs = cr)
+  | _, _ -> false
+
+let rec show_sreply (s : Redis.sreply) : string =
+  match s with
+  | Redis.SInt z -> "I" ^ Z.to_string (z_of_coqz z)
+  | Redis.SBulk b -> "B" ^ tok_out (sb b)
+  | Redis.SNull -> "N" | Redis.SErr -> "E" | Redis.SOk -> "+OK" | Redis.SAny -> "any"
+  | Redis.SStatus x -> "S" ^ sb x
+  | Redis.SIntIn (a, b) -> Printf.sprintf "I[%s..%s]" (Z.to_string (z_of_coqz a)) (Z.to_string (z_of_coqz b))
+  | Redis.SArr l -> "A(" ^ String.concat " " (List.map show_sreply l) ^ ")"
+  | Redis.SBag l -> "Bag(" ^ String.concat " " (List.map show_sreply l) ^ ")"
+  | Redis.SPairs l -> "Pairs(" ^ String.concat " " (List.map (fun (a, b) -> show_sreply a ^ "=" ^ show_sreply b) l) ^ ")"
+  | Redis.SScan _ -> "scan"
+
+(* canonical text of a specification value, comparable with the K-line value tokens *)
+let sval_eq (v : Redis.sval) (j : Redis.sval) : bool =
+  match v, j with
+  | Redis.SvStr a, Redis.SvStr b -> a = b
+  | Redis.SvList a, Redis.SvList b -> a = b
+  | Redis.SvHash a, Redis.SvHash b -> a = b
+  | Redis.SvSet a, Redis.SvSet b -> List.map fst a = List.map fst b
+  | Redis.SvZSet a, Redis.SvZSet b -> a = b
+  | _, _ -> false
+
+let judge_main file =
+  let ic = open_in file in
+  let lines = ref [] in
+  (try while true do lines := input_line ic :: !lines done with End_of_file -> ());
+  let lines = Array.of_list (List.rev !lines) in
+  let n = Array.length lines in
+  let i = ref 0 in
+  let case_id = ref "" and stepno = ref 0 in
+  let prev_dump : jkey list ref = ref [] in
+  let memory : (string, Redis.sval) Hashtbl.t = Hashtbl.create 16 in
+  let judged = ref 0 and unjudged = ref 0 and diffs = ref 0 and steps = ref 0 in
+  let read_dump () =
+    let acc = ref [] in
+    while !i < n && (let l = lines.(!i) in String.length l > 0 &&
+                     (l.[0] = 'K' || l.[0] = 'M' || l.[0] = 'P' ||
+                      (String.length l > 3 && (String.sub l 0 4 = "DUMP")) ||
+                      (String.length l > 2 && String.sub l 0 3 = "ST "))) do
+      acc := lines.(!i) :: !acc; incr i
+    done; List.rev !acc in
+  while !i < n do
+    let l = lines.(!i) in incr i;
+    let toks = split_ws l in
+    (match toks with
+     | "CASE" :: id :: _ -> case_id := id; stepno := 0; prev_dump := []; Hashtbl.reset memory
+     | "X" :: _ ->
+         incr stepno;
+         let d = parse_dump (read_dump ()) in
+         (* remember hot values; forget everything the reopen may have changed *)
+         List.iter (fun k -> match k.jval with Some (JKnown v) -> Hashtbl.replace memory k.jname v | _ -> ()) d;
+         prev_dump := d
+     | "OP" :: _conn :: name :: nargs :: rest ->
+         incr stepno; incr steps;
+         let nargs = int_of_string nargs in
+         let rest = if nargs = 0 then List.tl rest else rest in
+         let argtoks = take nargs rest in
+         let args = List.map parse_tok argtoks in
+         List.iter register_bytes args;
+         let after = drop nargs rest in
+         let (t0, t1, reply) = (match after with
+           | a :: b :: "=>" :: r -> (Z.of_string a, Z.of_string b, r)
+           | _ -> (Z.zero, Z.zero, [])) in
+         let post = parse_dump (read_dump ()) in
+         let post0 = post in
+         (* pre-state *)
+         let unknown = ref false in
+         let ignored = ref [] in
+         let pre : (Byte.byte list * (Redis.sval * BinNums.coq_Z)) list =
+           List.filter_map (fun k ->
+             let v = (match k.jval with
+                      | Some (JKnown v) -> Some v
+                      | Some JUnknown -> None
+                      | None -> Hashtbl.find_opt memory k.jname) in
+             match v with
+             | Some v -> Some (bs k.jname, (v, coqz_of_z k.jexp))
+             | None -> ignored := k.jname :: !ignored;
+                       (if List.mem k.jname args || nargs = 0 || List.mem name ["KEYS"; "SCAN"; "DBSIZE"; "FLUSHDB"; "FLUSHALL"]
+                        then unknown := true); None) !prev_dump in
+         let in_multi = false in
+         ignore in_multi;
+         (* oracle for SPOP: the members the implementation returned *)
+         let oracle = (match parse_nested reply with
+                       | Some (NB x) -> [bs x]
+                       | Some (NA l) -> List.filter_map (function NB x -> Some (bs x) | _ -> None) l
+                       | _ -> []) in
+         let cands =
+           let w = Z.to_int (Z.sub t1 t0) in
+           if w <= 40 then List.init (w + 1) (fun k -> Z.add t0 (Z.of_int k)) else [t0; t1] in
+         let special = List.mem name ["MULTI"; "EXEC"; "DISCARD"; "WATCH"; "UNWATCH"] in
+         let queued = (reply = ["S515545554544"]) in
+         if !unknown || special || queued || reply = ["DEAD"] then incr unjudged
+         else begin
+           let verdicts = List.map (fun now ->
+             match Redis.spec_step (coqz_of_z now) (bs name) (List.map bs args) oracle pre with
+             | Redis.SUnjudged -> `Unj
+             | Redis.SR (d', sr) ->
+                 let rep_ok = (match parse_nested reply with
+                               | Some nr -> rep_match name sr nr
+                               | None -> false) in
+                 (* post-state: every specification key present with equal deadline and (if hot) value;
+                    every implementation key is a specification key or already expired *)
+                 (* a deadline inside the clock bracket of this step cannot be judged either way *)
+                 let near e = (not (Z.equal e Z.zero)) && Z.geq e (Z.pred t0) && Z.leq e (Z.add t1 (Z.of_int 2)) in
+                 let d' = List.filter (fun (_, (_, e)) -> not (near (z_of_coqz e))) (Redis.purge (coqz_of_z now) d') in
+                 let post = List.filter (fun j -> not (near j.jexp)) post in
+                 let st_err = ref "" in
+                 List.iter (fun (k, (v, e)) ->
+                   match List.find_opt (fun j -> j.jname = sb k) post with
+                   | None -> if !st_err = "" && not (List.exists (fun j -> j.jname = sb k) post0) then st_err := "missing key " ^ tok_bytes (sb k)
+                   | Some j ->
+                       if not (Z.equal j.jexp (z_of_coqz e)) then
+                         (if !st_err = "" then st_err := Printf.sprintf "deadline of %s: spec %s impl %s" (tok_bytes (sb k)) (Z.to_string (z_of_coqz e)) (Z.to_string j.jexp))
+                       else (match j.jval with
+                             | Some (JKnown iv) -> if not (sval_eq v iv) && !st_err = "" then st_err := "value of " ^ tok_bytes (sb k) ^ " impl: " ^ String.concat " " j.jraw
+                             | _ -> ())) d';
+                 List.iter (fun j ->
+                   if not (List.exists (fun (k, _) -> sb k = j.jname) d') && not (List.mem j.jname !ignored) then
+                     if Z.equal j.jexp Z.zero || Z.gt j.jexp t1 then
+                       (if !st_err = "" then st_err := "extra key " ^ tok_bytes j.jname ^ " impl: " ^ String.concat " " j.jraw)) post;
+                 `Res (rep_ok, !st_err, sr)) cands in
+           if List.mem `Unj (List.map (function `Unj -> `Unj | _ -> `X) verdicts) then incr unjudged
+           else begin
+             incr judged;
+             let good = List.exists (function `Res (true, "", _) -> true | _ -> false) verdicts in
+             if not good then begin
+               incr diffs;
+               (match List.hd verdicts with
+                | `Res (rep_ok, st, sr) ->
+                    let kind = if not rep_ok then "reply" else "state" in
+                    Printf.printf "SPECDIFF %s step=%d %s/%s spec=%s impl=%s%s\n" !case_id !stepno name kind
+                      (let s = show_sreply sr in if String.length s > 200 then String.sub s 0 200 else s)
+                      (let s = String.concat " " reply in if String.length s > 200 then String.sub s 0 200 else s)
+                      (if st <> "" then " state: " ^ (if String.length st > 200 then String.sub st 0 200 else st) else "")
+                | `Unj -> ())
+             end
+           end
+         end;
+         List.iter (fun k -> match k.jval with Some (JKnown v) -> Hashtbl.replace memory k.jname v | _ -> ()) post;
+         prev_dump := post
+     | _ -> ())
+  done;
+  Printf.printf "JSUMMARY steps=%d judged=%d unjudged=%d specdiffs=%d\n" !steps !judged !unjudged !diffs
+
 let () =
   match Array.to_list Sys.argv with
   | _ :: "codec" :: file :: _ -> codec_main file
   | _ :: "trace" :: file :: _ -> trace_main file
+  | _ :: "judge" :: file :: _ -> judge_main file
   | _ -> prerr_endline "usage: mrun <mode> <file>"; exit 2
